@@ -626,6 +626,7 @@ class Check:
             expected.append(obs)
         if terms:
             mism, outs, wall, errors = coq_eval_cases(self.PID, self.HEADER, self.RUN, terms, expected,
+                                                      tag="_" + self.tier,
                                                       case_type=getattr(self, "CASE_TYPE", None))
         else:
             mism, outs, wall, errors = [], {}, 0.0, []
